@@ -14,6 +14,7 @@ import concurrent.futures as cf
 import json
 import os
 import shutil
+import time
 
 from harness import explore, mc, scn as S, tlc
 
@@ -156,11 +157,42 @@ def wake_model(tier):
     res = {"module": "ProgressWake (MCProgressWake.cfg)", "ok": ok, "states": tlc.stats(out)["distinct"], "secs": round(secs, 1),
            "invariants": ["NoLostWakeup", "SoundResult", "ExactlyOnce", "CancelledAreParked", "Monotone"],
            "negative_control_EagerOnly_violates_NoLostWakeup": neg}
+    res["tlaps_proof"] = wake_proof()
     if not ok:
         print("MODEL-COUNTEREXAMPLE model=ProgressWake (specification only)")
     if not neg:
         print("MACHINERY negative control of ProgressWake did not fail")
     return res
+
+
+def wake_proof():
+    """TLAPS: NoLostWakeup (+ domains) and the soundness of resolved values are INDUCTIVE invariants of ProgressWake for
+    arbitrary owners, tiered times, delays and callers (spec/ProgressWakeProof.tla).  A proof, not a verdict on the code:
+    a failure is reported in the evidence and as a MODEL-PROOF line, the exit code is unaffected."""
+    import re
+    import subprocess
+
+    if not shutil.which("tlapm"):
+        return {"ran": False, "why": "tlapm not on PATH"}
+    wd = tlc.scratch()
+    try:
+        for f in ("ProgressWakeProof.tla", "ProgressWake.tla", "Tiered.tla"):
+            shutil.copy(os.path.join(tlc.SPEC, f), wd)
+        t0 = time.time()
+        try:
+            p = subprocess.run(["tlapm", "ProgressWakeProof.tla"], cwd=wd, capture_output=True, text=True, timeout=600)
+            out = p.stdout + p.stderr
+        except subprocess.TimeoutExpired:
+            out = "timeout"
+        m = re.search(r"All (\d+) obligations proved", out)
+        res = {"ran": True, "module": "ProgressWakeProof", "theorems": ["InitInv", "StepInv (Dom /\\ NoLostWakeup inductive)", "InitSound", "StepSound (resolved values satisfy the caller's relation)"],
+               "all_proved": bool(m), "obligations": int(m.group(1)) if m else 0, "secs": round(time.time() - t0, 1)}
+        if not m:
+            res["tail"] = out[-300:]
+            print("MODEL-PROOF tlapm did not prove every obligation of ProgressWakeProof (specification only; not a verdict)")
+        return res
+    finally:
+        shutil.rmtree(wd, ignore_errors=True)
 
 
 def _wake_layer(cov, results, label):
